@@ -141,24 +141,44 @@ def oneFamPerSrc : List Op → List (Nat × Fam) → Bool
           | some (_, f') => f' == f && oneFamPerSrc ops seen
           | none => oneFamPerSrc ops ((s, f) :: seen)
 
+/-- Only one session of a peer is established at a time (C07): between two session ends of
+    (address, family) (`drop`, `restale`, `restale_llgr`) only one Source of that address announces
+    or withdraws. -/
+def oneLiveSession : List Op → List ((Nat × Fam) × Nat) → Bool
+  | [], _ => true
+  | op :: ops, cur =>
+      match op with
+      | .insert s f .. | .remove s f .. =>
+          (match cur.find? (fun x => x.1 = (s.addr, f)) with
+           | some (_, i) => i == s.id && oneLiveSession ops cur
+           | none => oneLiveSession ops (((s.addr, f), s.id) :: cur))
+      | .drop a f | .restale a f | .restaleLlgr a f =>
+          oneLiveSession ops (cur.filter fun x => !(x.1 == (a, f)))
+      | _ => oneLiveSession ops cur
+
 /-- bytes are bytes, AS_PATH bytes are whole segments (what `Attribute::decode` guarantees) -/
 def attrWfB (a : Attrs) : Bool :=
   (match a.asPath with | some b => asPathWf b && decide (b.length < U64) | none => true) &&
   (match a.comm with | some b => b.all (· < 256) | none => true) &&
   (match a.ext with | some b => b.all (· < 256) | none => true)
 
+/-- a purge of peer `a` may only be handed the limit counter of a session of that peer, and only when
+    that session is the peer's only one (purges settle the counter by peer address) -/
+def purgeCtrB (c : Case) (a s : Nat) : Bool :=
+  match c.srcs[s]? with
+  | some src => src.addr == a && c.srcs.all (fun s' => s'.id == s || s'.addr != a)
+  | none => false
+
 /-- sources and attribute sets are referred to by their position in the case (`Arc` identity) -/
 def opRefB (c : Case) : Op → Bool
   | .insert s _ _ _ _ a _ _ => decide (c.srcs[s.id]? = some s) && decide (c.attrs[a.id]? = some a) && attrWfB a
   | .remove s _ _ _ => decide (c.srcs[s.id]? = some s)
-  -- a purge of peer `a` may only be handed the limit counter of a session of that peer
-  | .dropStale a _ (some s) | .dropLlgr a _ (some s) | .dropNoLlgr a _ (some s) =>
-      (match c.srcs[s]? with | some src => src.addr == a | none => false)
+  | .dropStale a _ (some s) | .dropLlgr a _ (some s) | .dropNoLlgr a _ (some s) => purgeCtrB c a s
   | _ => true
 
 /-- The well-formedness both sides demand of a case (everything else is `(bad-case)`); it always
     holds for the references `opOf?` resolves, and rejects a source used with two families. -/
-def goodB (c : Case) : Bool := c.ops.all (opRefB c) && oneFamPerSrc c.ops []
+def goodB (c : Case) : Bool := c.ops.all (opRefB c) && oneFamPerSrc c.ops [] && oneLiveSession c.ops []
 
 def caseOf? : Term → Option Case
   | .list [.atom "case", .list (.atom "srcs" :: ss), .list (.atom "attrs" :: as), .list (.atom "ops" :: os)] => do
